@@ -673,15 +673,19 @@ impl<T> TooDee<T> {
     {
         assert!(index <= self.num_rows);
         let mut iter = data.into_iter();
-        if self.num_rows == 0 {
-            self.num_cols = iter.len();
+        // Work on local copies of the dimensions: `self` must describe a valid array
+        // whenever the caller's iterator (or the allocator) may panic.
+        let num_rows = self.num_rows;
+        let num_cols = if num_rows == 0 {
+            iter.len()
         } else {
             assert_eq!(self.num_cols, iter.len());
-        }
+            self.num_cols
+        };
         
-        self.reserve(self.num_cols);
+        self.reserve(num_cols);
 
-        let start = index * self.num_cols;
+        let start = index * num_cols;
         let len = self.data.len();
 
         unsafe {
@@ -692,10 +696,16 @@ impl<T> TooDee<T> {
             // - append the new row to the array and use `slice.rotate...()` to shuffle everything into place.
             // - store the new row data in a temporary location before shifting the memory and inserting the row.
             self.data.set_len(start);
+            // The vector now holds exactly the `index` rows above the insertion point, so
+            // report those dimensions while `iter.next()` may panic.
+            self.num_rows = index;
+            if index == 0 {
+                self.num_cols = 0;
+            }
             
             let mut p = self.data.as_mut_ptr().add(start);
             // shift everything to make space for the new row
-            let suffix = p.add(self.num_cols);
+            let suffix = p.add(num_cols);
             ptr::copy(p, suffix, len - start);
             
             // Only iterates a maximum of `self.num_cols` times.
@@ -711,12 +721,13 @@ impl<T> TooDee<T> {
             
             debug_assert!(iter.next().is_none(), "iterator not exhausted");
 
-            self.data.set_len(len + self.num_cols);
+            self.data.set_len(len + num_cols);
         }
 
-        // update the number of rows
-        if self.num_cols > 0 {
-            self.num_rows += 1;
+        // the row is in place: publish the new dimensions
+        if num_cols > 0 {
+            self.num_cols = num_cols;
+            self.num_rows = num_rows + 1;
         }
 
     }
@@ -833,17 +844,21 @@ impl<T> TooDee<T> {
         assert!(index <= self.num_cols);
         // Use the reverse iterator
         let mut rev_iter = data.into_iter().rev();
-        if self.num_cols == 0 {
-            self.num_rows = rev_iter.len();
+        // Work on local copies of the dimensions: `self` must describe a valid array
+        // whenever the caller's iterator (or the allocator) may panic.
+        let num_cols = self.num_cols;
+        let num_rows = if num_cols == 0 {
+            rev_iter.len()
         } else {
             assert_eq!(self.num_rows, rev_iter.len());
-        }
+            self.num_rows
+        };
         
-        self.reserve(self.num_rows);
+        self.reserve(num_rows);
         
         let old_len = self.data.len();
-        let new_len = old_len + self.num_rows;
-        let suffix_len = self.num_cols - index;
+        let new_len = old_len + num_rows;
+        let suffix_len = num_cols - index;
         
         unsafe {
             
@@ -853,6 +868,9 @@ impl<T> TooDee<T> {
             // - append the new column to the array and use swapping to shuffle everything into place.
             // - store the new column data in a temporary location before shifting the memory and inserting values.
             self.data.set_len(0);
+            // The vector is empty for now, so report an empty array while `rev_iter.next()` may panic.
+            self.num_cols = 0;
+            self.num_rows = 0;
             
             let p = self.data.as_mut_ptr();
             let mut read_p = p.add(old_len);
@@ -866,18 +884,18 @@ impl<T> TooDee<T> {
                 }
             };
 
-            if self.num_rows > 0 {
+            if num_rows > 0 {
                 // start with suffix copy
                 read_p = read_p.sub(suffix_len);
                 write_p = write_p.sub(suffix_len);
                 ptr::copy(read_p, write_p, suffix_len);
                 write_p = write_p.sub(1);
                 ptr::write(write_p, next_or_panic(&mut rev_iter));
-                for _ in 0..(self.num_rows - 1) {
+                for _ in 0..(num_rows - 1) {
                     // copy suffix and prefix as a single block until we are on the final element
-                    read_p = read_p.sub(self.num_cols);
-                    write_p = write_p.sub(self.num_cols);
-                    ptr::copy(read_p, write_p, self.num_cols);
+                    read_p = read_p.sub(num_cols);
+                    write_p = write_p.sub(num_cols);
+                    ptr::copy(read_p, write_p, num_cols);
                     write_p = write_p.sub(1);
                     ptr::write(write_p, next_or_panic(&mut rev_iter));
                 }
@@ -891,9 +909,10 @@ impl<T> TooDee<T> {
             self.data.set_len(new_len);
         }
 
-        // update the number of columns
-        if self.num_rows > 0 {
-            self.num_cols += 1;
+        // the column is in place: publish the new dimensions
+        if num_rows > 0 {
+            self.num_cols = num_cols + 1;
+            self.num_rows = num_rows;
         }
     }
 
